@@ -150,11 +150,13 @@ def impl(line):
             # (a file without a complete packet: whatever is said about it, there are no rows and no traceback)
             rows = []
             for ln in out.splitlines():
-                cells = [c.strip() for c in re.split(r"[│┃|]", ln) if c.strip() != ""]
-                if len(cells) == 7 and cells[0] != "VER":
-                    if cells[0] == "...":
-                        rows.append("...")
-                        continue
+                # a row of the listing is seven integers, or ellipses in their place — whatever the table is drawn with
+                # (rules, no rules, alignment, colour are the renderer's business)
+                cells = re.sub(r"[^0-9A-Za-z_.\- ]", " ", re.sub(r"\x1b\[[0-9;]*m", "", ln)).split()
+                if cells and all(c in ("...", "…") for c in cells):
+                    rows.append("...")
+                    continue
+                if len(cells) == 7 and all(re.fullmatch(r"-?[0-9]+", c) for c in cells):
                     i = int(cells[5]) - BASE
                     # every printed header field is the field of that packet (independent of the library's accessors)
                     want = [i % 8, i % 2, (i // 2) % 2, 100 + (i % 3) * 700, i % 4, BASE + i, 0]
